@@ -69,6 +69,7 @@ const (
 	KFunc
 	KReturn
 	KTemplate
+	KDice // XdY with optional keep/drop modifier and min/max clamp (deterministic modes only)
 )
 
 type Node struct {
@@ -82,6 +83,11 @@ type Node struct {
 	Else   []*Node
 	Params []string
 	Quote  byte
+	// KDice: I = times, Sides, S = "", "kh", "kl", "dh", "dl" with Cnt; Clamp = "", "min", "max" with ClampV
+	Sides  int64
+	Cnt    int64
+	Clamp  string
+	ClampV int64
 }
 
 // precedence levels (higher binds tighter)
@@ -237,6 +243,15 @@ func (p *printer) expr(n *Node) string {
 		return n.S + p.spNoCR()
 	case KParen:
 		return "(" + p.sp() + p.expr(n.Kids[0]) + ")" + p.sp()
+	case KDice:
+		s := strconv.FormatInt(n.I, 10) + "d" + strconv.FormatInt(n.Sides, 10)
+		if n.S != "" {
+			s += n.S + strconv.FormatInt(n.Cnt, 10)
+		}
+		if n.Clamp != "" {
+			s += n.Clamp + strconv.FormatInt(n.ClampV, 10)
+		}
+		return s
 	case KArr:
 		if len(n.Kids) == 0 {
 			return "[" + p.sp() + "]" + p.sp()
@@ -456,6 +471,10 @@ type Interp struct {
 	fuel     int
 	top      *frame
 	unspecRt bool // Ret of the program is unspecified (last statement left no value)
+	// Mode: -1 = DiceMinMode, +1 = DiceMaxMode, 0 = random (only one-sided dice are judged)
+	Mode int
+	// IgnoreDiv0: division by zero yields the left operand ('%' still errors)
+	IgnoreDiv0 bool
 }
 
 func truthy(v Val) bool {
@@ -652,7 +671,7 @@ func (in *Interp) lookup(name string) Val {
 	return Null{}
 }
 
-func arith(op string, a, b Val) Val {
+func arith(op string, a, b Val, ignoreDiv0 bool) Val {
 	ai, aInt := a.(int64)
 	bi, bInt := b.(int64)
 	af, aFl := a.(float64)
@@ -667,6 +686,9 @@ func arith(op string, a, b Val) Val {
 			return ai * bi
 		case "/":
 			if bi == 0 {
+				if ignoreDiv0 {
+					return a
+				}
 				fail("div0")
 			}
 			if ai == math.MinInt64 && bi == -1 {
@@ -705,6 +727,9 @@ func arith(op string, a, b Val) Val {
 			return af * bf
 		case "/":
 			if bf == 0 {
+				if ignoreDiv0 {
+					return a
+				}
 				fail("div0")
 			}
 			return af / bf
@@ -813,7 +838,7 @@ func (in *Interp) binop(op string, a, b Val) Val {
 		}
 		return ai | bi
 	}
-	if v := arith(op, a, b); v != nil {
+	if v := arith(op, a, b, in.IgnoreDiv0); v != nil {
 		return v
 	}
 	fail("operator %s on %s, %s", op, typeName(a), typeName(b))
@@ -884,6 +909,34 @@ func (in *Interp) eval(n *Node) Val {
 		return in.lookup(n.S)
 	case KParen:
 		return in.eval(n.Kids[0])
+	case KDice:
+		face := int64(1)
+		switch {
+		case in.Mode > 0:
+			face = n.Sides
+		case in.Mode == 0 && n.Sides != 1:
+			decline("random dice")
+		}
+		if n.Clamp == "max" && face > n.ClampV {
+			face = n.ClampV
+		}
+		if n.Clamp == "min" && face < n.ClampV {
+			face = n.ClampV
+		}
+		kept := n.I
+		switch n.S {
+		case "kh", "kl":
+			kept = n.Cnt
+		case "dh", "dl":
+			kept = n.I - n.Cnt
+		}
+		if kept > n.I {
+			kept = n.I
+		}
+		if kept < 0 {
+			kept = 0
+		}
+		return kept * face
 	case KArr:
 		a := &Arr{}
 		for _, k := range n.Kids {
@@ -1393,7 +1446,7 @@ func (in *Interp) execList(list []*Node, topLevel bool) Val {
 			default:
 				fail("item set on %s", typeName(base))
 			}
-			unspec = true
+			last, unspec = v, false // a set-assignment yields the assigned value, like a plain assignment
 		case KAttrSet:
 			v := in.eval(s.Kids[1])
 			base := in.lookup(s.Kids[0].S)
@@ -1402,7 +1455,7 @@ func (in *Interp) execList(list []*Node, topLevel bool) Val {
 				fail("attr set on %s", typeName(base))
 			}
 			d.M[s.S] = v
-			unspec = true
+			last, unspec = v, false
 		default:
 			last, unspec = in.eval(s), false
 		}
